@@ -8,7 +8,7 @@ from .. import AnalysisError
 from ..astutil import Deps, is_name
 from ..cfg import CFG
 from ..engine import Analysis
-from ..kinds import arg_for, call_nodes, calls_to, forwards_varargs, normal_only, param_positions, q, strict, strict_but, token_assert, vararg_names
+from ..kinds import arg_for, call_nodes, calls_to, forwards_varargs, normal_only, param_positions, q, strict, strict_but, token_assert, token_assert_for, vararg_names
 from ..loader import dotted, parent, stmt_text
 from . import c02
 
@@ -105,7 +105,7 @@ def check(an: Analysis) -> None:
                 ob.fail(aexit, n.ast, "TaskGroup.__aexit__ coroutine is created but not awaited")
             if dotted(n.ast.func.value) != "self._group":  # type: ignore[union-attr]
                 ob.fail(aexit, n.ast, "exits a task group other than self._group")
-        w = ga.must_pass(lambda n: n in gx, raising=strict_but(token_assert))
+        w = ga.must_pass(lambda n: n in gx, raising=strict_but(token_assert_for(prog, aexit)))
         if w is not None:
             ob.fail(aexit, gx[0].ast, "a path leaves TaskGroupContext.__aexit__ without awaiting the task group", CFG.show_path(w))
 
